@@ -64,6 +64,7 @@ type c02env struct {
 	pos      []c02pos // 1-based: pos[0] unused
 	fails    map[int]bool
 	calls    []int
+	pulls    []int
 	errs     map[int]error
 	vars     []int // variant draws of dynamic cases
 	extra    string
@@ -80,6 +81,25 @@ func (e *c02env) checkHead(p int, got int) {
 
 func (e *c02env) reset() {
 	e.calls = e.calls[:0]
+	e.pulls = e.pulls[:0]
+}
+
+// c02src is an on-demand source of the elements 1..n: an element exists only once it has been pulled, and every pull is logged.
+func c02src(e *c02env, n int) fp.Iterator[int] {
+	return c02srcOf(e, n, func(i int) int { return i })
+}
+
+func c02srcOf[T any](e *c02env, n int, mk func(i int) T) fp.Iterator[T] {
+	next := 1
+	return fp.MakeIterator(func() bool { return next <= n }, func() T {
+		if next > n {
+			panic("next on exhausted source")
+		}
+		i := next
+		next++
+		e.pulls = append(e.pulls, i)
+		return mk(i)
+	})
 }
 
 func (e *c02env) call(p int)         { e.calls = append(e.calls, p) }
@@ -212,6 +232,9 @@ type c02case struct {
 	tags map[int]string
 	run  func(e *c02env) c02res
 	want func(e *c02env) int
+	// srcN > 0: positions 1..srcN are the elements of an instrumented on-demand source iterator (c02src);
+	// for try/option/either the source must be pulled exactly up to the first failing position
+	srcN int
 }
 
 var c02cases []c02case
@@ -340,6 +363,21 @@ func c02Combinator(r *sim.Run) {
 			}
 			r.Violate(cls+":"+fam, "%s returned %s, want %s", desc(), got, expRes)
 			return false
+		}
+		if cs.srcN > 0 && !strings.HasPrefix(cs.name, "statet.") {
+			// (statet.FoldM builds its chain of steps from the whole source before any step runs: not a failure-dependent pull)
+			var expPulls []int
+			for p := 1; p <= cs.srcN; p++ {
+				expPulls = append(expPulls, p)
+				if e.fails[p] {
+					break
+				}
+			}
+			r.Probe("on-demand-sources-checked")
+			if fmt.Sprint(e.pulls) != fmt.Sprint(expPulls) {
+				r.Violate("source-overpulled:"+fam, "%s pulled elements %v from its on-demand source, want %v (nothing after the first failing element)", desc(), e.pulls, expPulls)
+				return false
+			}
 		}
 		if fmt.Sprint(e.calls) != fmt.Sprint(expCalls) {
 			r.Violate("wrong-calls:"+fam, "%s invoked callbacks at positions %v, want %v (each once, in order, none after the first failure)", desc(), e.calls, expCalls)
